@@ -402,7 +402,7 @@ def main():
         cases = [rep["input"]] if isinstance(rep.get("input"), dict) and rep["input"].get("kind") == "spec" else []
     else:
         r = cm.rng(PID)
-        ncase = 30 if args.tier == "quick" else 300
+        ncase = 30 if args.tier == "quick" else 200
         cases = corpus() + [gen_case(r, k) for k in range(ncase)]
     run(chk, cases)
     chk.finish()
